@@ -82,6 +82,17 @@ theorem Sat.weaken {α : Type} {m : M α} {P R : α → Prop} {E F : Exn → Pro
   | ok v => exact h _ h1
   | error x => exact hE _ h1
 
+theorem Sat.and {α : Type} {m : M α} {P R : α → Prop} {E : Exn → Prop} (h1 : Sat m P E) (h2 : Sat m R E) :
+    Sat m (fun a => P a ∧ R a) E := by
+  intro l e
+  have a := h1 l e
+  have b := h2 l e
+  rcases hr : m.run l e with ⟨r, e'⟩
+  rw [hr] at a b
+  cases r with
+  | ok v => exact ⟨a, b⟩
+  | error x => exact a
+
 theorem Sat.trivial {α : Type} (m : M α) : Sat m (fun _ => True) (fun _ => True) := by
   intro l e
   rcases m.run l e with ⟨r, e'⟩
